@@ -489,7 +489,7 @@ def run(ctx):
                                                                                      {'name': 'bump_into_wall'}]}),
                 compose.build('terminating', {'name': 'reach_exit'}),
                 compose.build('observation', {'name': obs_name, 'area': a}), area, lambda rng=None: hstate)
-            rebuild_equivalence(ctx, env, hstate, f'history state under {obs_name}', {'state': enc.state_to_json(hstate)}, True)
+            rebuild_equivalence(ctx, env, hstate, f'history state under {obs_name}', {'state': enc.state_to_json(hstate), 'hist_key': [ctx.seed, ctx.shard, k]}, True)
         component_purity_sweep(ctx)
         shortest_path_history(ctx, gen.rng_for('C03sp', ctx.seed, ctx.shard))
         ray_history(ctx, gen.rng_for('C03ray', ctx.seed, ctx.shard))
@@ -508,7 +508,8 @@ def replay(ctx, kind, payload):
             st = enc.state_from_json(payload['state'])
             env = comp.build(lambda rng=None: st)
         elif 'state' in payload:
-            st0 = enc.state_from_json(payload['state'])
+            st0 = (obsgen.history_state(gen.rng_for('C03hist', *payload['hist_key'])) if 'hist_key' in payload
+                   else enc.state_from_json(payload['state']))
             hh, ww = len(st0.grid.objects), len(st0.grid.objects[0])
             for obs_name in ('raytracing', 'partially_occluded'):
                 area = Area((-3, 0), (-2, 2))
